@@ -70,17 +70,19 @@ class SimpleCache(BaseCache):
     def __is_cached(
         self,
         input_data: StrKeyMapping,
+        exactly: bool = False,
     ) -> bool:
         """Check if an input data is cached.
 
         Args:
             input_data: The input data to be verified.
+            exactly: Whether to ignore the tolerance.
 
         Returns:
             Whether the input data is cached.
         """
         return len(self.__inputs) != 0 and self.compare_dict_of_arrays(
-            input_data, self.__inputs, self._tolerance
+            input_data, self.__inputs, 0.0 if exactly else self._tolerance
         )
 
     def cache_outputs(  # noqa:D102
@@ -88,7 +90,8 @@ class SimpleCache(BaseCache):
         input_data: StrKeyMapping,
         output_data: StrKeyMapping,
     ) -> None:
-        if self.__is_cached(input_data):
+        # The data are stored with their own input data, not with close ones.
+        if self.__is_cached(input_data, exactly=True):
             if not self.__outputs:
                 self.__outputs = deepcopy_dict_of_arrays(output_data)
             return
@@ -113,7 +116,8 @@ class SimpleCache(BaseCache):
         input_data: StrKeyMapping,
         jacobian_data: JacobianData,
     ) -> None:
-        if self.__is_cached(input_data):
+        # The data are stored with their own input data, not with close ones.
+        if self.__is_cached(input_data, exactly=True):
             if not self.__jacobian:
                 self.__jacobian = jacobian_data
             return
